@@ -103,6 +103,17 @@ func (cfg *Config) VerifyConfig(schema base.LogSchema) error {
 		return fmt.Errorf(".serialization.environmentFields is unspecified")
 	}
 
+	for i, field := range cfg.Serialization.EnvironmentFields {
+		if _, err := schema.CreateFieldLocator(field); err != nil {
+			return fmt.Errorf(".serialization.environmentFields[%d] is invalid: %w", i, err)
+		}
+	}
+	for i, field := range cfg.Serialization.HiddenFields {
+		if _, err := schema.CreateFieldLocator(field); err != nil {
+			return fmt.Errorf(".serialization.hiddenFields[%d] is invalid: %w", i, err)
+		}
+	}
+
 	for field, rewriteConfig := range cfg.Serialization.RewriteFields {
 		if _, err := schema.CreateFieldLocator(field); err != nil {
 			return fmt.Errorf(".serialization.rewriteFields[%s]: Field is invalid: %w", field, err)
